@@ -28,7 +28,7 @@ structure Header where
 def parseHeader (b : Bytes) : Header :=
   { sync0 := byteAt b 0, sync1 := byteAt b 1, reserved := u16le b 2, crc := u32le b 4,
     protocolVersion := byteAt b 8, messageVersion := byteAt b 9, messageType := u16le b 10,
-    sequenceNumber := u32le b 12, payloadSize := u32le b 20, sourceId := u32le b 16 }
+    sequenceNumber := u32le b 12, payloadSize := u32le b 16, sourceId := u32le b 20 }
 
 def packHeader (h : Header) : Bytes :=
   leBytes 1 h.sync0 ++ leBytes 1 h.sync1 ++ leBytes 2 h.reserved ++ leBytes 4 h.crc ++
@@ -38,20 +38,20 @@ def packHeader (h : Header) : Bytes :=
 /-- `MessageHeader.validate_crc(buffer)` on a buffer that starts with the header and holds at
 least the whole message: sanity limit on the payload length, CRC over bytes `[8, 24 + payload)`. -/
 def pyCrcOk (msg : Bytes) : Bool :=
-  decide (u32le msg 20 ≤ MAX_EXPECTED) &&
-    decide ((crc32 0#32 ((msg.take (HDR + u32le msg 20)).drop 8)).toNat = u32le msg 4)
+  decide (u32le msg 16 ≤ MAX_EXPECTED) &&
+    decide ((crc32 0#32 ((msg.take (HDR + u32le msg 16)).drop 8)).toNat = u32le msg 4)
 
 /-- Header acceptance of the Python decoder: sync bytes, reserved = 0, payload within the limit. -/
 def pyHeaderOk (maxPayload : Nat) (h : Bytes) : Bool :=
   decide (byteAt h 0 = SYNC0) && decide (byteAt h 1 = SYNC1) && decide (u16le h 2 = 0) &&
-    decide (u32le h 20 ≤ maxPayload)
+    decide (u32le h 16 ≤ maxPayload)
 
 /-- The framing configuration of the Python decoder with `max_payload_len_bytes = maxPayload`. -/
 def cfgPy (maxPayload : Nat) : Cfg where
   hdrLen := HDR
   hdrLen_pos := by decide
   headerOk := pyHeaderOk maxPayload
-  payload := fun h => u32le h 20
+  payload := fun h => u32le h 16
   bodyOk := pyCrcOk
 
 end FeVerif
